@@ -188,6 +188,35 @@ def _patch_crosshair():
         return orig_fork(self, false_probability, desc)
 
     StateSpace.fork_parallel = fork_parallel
+
+    # CrossHair bug: LazyIntSymbolicStr.__eq__ delegates to SequenceConcatenation.__eq__, which compares its pieces with
+    # `first == other[:n]`; when one piece is a list and the other a tuple/slice view Python's list==tuple is False, so two
+    # strings with identical code points compare unequal (spurious counterexamples that do not replay).  Compare code points
+    # element-wise instead (symbolic elements are still decided by the solver).
+    from crosshair.libimpl.builtinslib import LazyIntSymbolicStr
+    from crosshair.tracers import NoTracing, ResumedTracing
+
+    def str_eq(self, other):
+        with NoTracing():
+            if isinstance(other, LazyIntSymbolicStr):
+                otherpoints = other._codepoints
+            elif isinstance(other, str):
+                otherpoints = [ord(ch) for ch in other]
+            else:
+                return NotImplemented
+            mypoints = self._codepoints
+            with ResumedTracing():
+                if len(mypoints) != len(otherpoints):
+                    return False
+                for i in range(len(mypoints)):
+                    a, b = mypoints[i], otherpoints[i]
+                    if a is b:
+                        continue
+                    if a != b:
+                        return False
+                return True
+
+    LazyIntSymbolicStr.__eq__ = str_eq
     _install_quote_model()
     _PATCHED = True
 
